@@ -53,7 +53,9 @@ type tcpProc struct {
 	lb lb.Balancer
 	hm *hc.Monitor
 
-	wg sync.WaitGroup
+	wg       sync.WaitGroup
+	quitOnce sync.Once
+	quit     chan struct{}
 }
 
 func newProc(name string, cfg *service.Config, hosts []*host.Host, stats *proc.Stats, logger log.Logger) (*tcpProc, error) {
@@ -64,6 +66,7 @@ func newProc(name string, cfg *service.Config, hosts []*host.Host, stats *proc.S
 		cfg:     cfg,
 		hostSet: host.NewSet(hosts...),
 		lb:      lb.New(cfg.GetLbPolicy()),
+		quit:    make(chan struct{}),
 	}
 
 	var err error
@@ -123,6 +126,10 @@ func (p *tcpProc) HandleConn(conn net.Conn) {
 	}()
 
 	done := make(chan struct{})
+	// NOTE: The watcher below must live until both directions have finished,
+	// one direction is done as soon as the client closes its side.
+	finished := make(chan struct{})
+	defer close(finished)
 
 	// close conn when host removed form host set
 	go func() {
@@ -132,7 +139,12 @@ func (p *tcpProc) HandleConn(conn net.Conn) {
 			sconn.Close()
 			cconn.Close()
 			return
-		case <-done:
+		case <-p.quit:
+			// NOTE: The backend may be unresponsive, don't wait for it.
+			sconn.Close()
+			cconn.Close()
+			return
+		case <-finished:
 			return
 		}
 	}()
@@ -297,6 +309,9 @@ func (p *tcpProc) StopListen() (err error) {
 }
 
 func (p *tcpProc) Stop() error {
+	p.quitOnce.Do(func() {
+		close(p.quit)
+	})
 	p.hm.Stop()
 	p.ln.Stop()
 	p.wg.Wait()
